@@ -38,7 +38,12 @@ pub fn algebraic_inverse(nodes: &[Node], asm: &Assembly) -> Result<Node, Option<
     let b = expr.0.remove(&Term::X(1.0)).unwrap_or(ZERO);
     let a = (expr.0).remove(&Term::X(2.0)).filter(|&a| a != ZERO);
 
-    let span = asm.spans.len() - 1;
+    // The span must belong to the inverted nodes. The end of the assembly's
+    // spans table is whatever was compiled last, which need not be these nodes,
+    // and the inverse may be cached and used again when the table is different.
+    let Some(span) = nodes.iter().rev().find_map(Node::span) else {
+        return Err(None);
+    };
 
     let push = |x: Complex| {
         if data.any_complex {
@@ -162,26 +167,26 @@ pub fn algebraic_inverse(nodes: &[Node], asm: &Assembly) -> Result<Node, Option<
     Ok(node)
 }
 
-pub fn derivative(node: &Node, asm: &Assembly) -> AlgebraResult<Node> {
+pub fn derivative(node: &Node, span: usize, asm: &Assembly) -> AlgebraResult<Node> {
     dbgln!("derivative of {node:?}");
     let data = nodes_expr(node, asm);
     let expr = data.expr.inspect_err(|e| dbgln!("{e:?}"))?;
     dbgln!("expression: {expr:?}");
     let deriv = expr_deriv(expr).ok_or(AlgebraError::TooComplex)?;
     dbgln!("derivative: {deriv:?}");
-    let node = expr_to_node(deriv, data.any_complex, asm);
+    let node = expr_to_node(deriv, data.any_complex, span);
     dbgln!("derivative node: {node:?}");
     Ok(node)
 }
 
-pub fn integral(node: &Node, asm: &Assembly) -> AlgebraResult<Node> {
+pub fn integral(node: &Node, span: usize, asm: &Assembly) -> AlgebraResult<Node> {
     dbgln!("integral of {node:?}");
     let data = nodes_expr(node, asm);
     let expr = data.expr.inspect_err(|e| dbgln!("{e:?}"))?;
     dbgln!("expression: {expr:?}");
     let integral = expr_integral(expr).ok_or(AlgebraError::TooComplex)?;
     dbgln!("integral: {integral:?}");
-    let node = expr_to_node(integral, data.any_complex, asm);
+    let node = expr_to_node(integral, data.any_complex, span);
     dbgln!("integral node: {node:?}");
     Ok(node)
 }
@@ -268,8 +273,7 @@ fn expr_integral(expr: Expr) -> Option<Expr> {
     Some(deriv)
 }
 
-fn expr_to_node(expr: Expr, any_complex: bool, asm: &Assembly) -> Node {
-    let span = asm.spans.len() - 1;
+fn expr_to_node(expr: Expr, any_complex: bool, span: usize) -> Node {
     let mut node = Node::empty();
     fn recur(node: &mut Node, expr: Expr, any_complex: bool, span: usize) {
         let mut identity = false;
